@@ -272,6 +272,14 @@ def crossvalOn (m : List α → List α → α) (fit : Nat → Piece α → Θ) 
   (req.run (objOf d (fullView d)) (groupsP d).length).map (fun fc =>
     crossval m fit predict ncf d nModels fc.1 fc.2 calcNc)
 
+/-- the same call with the generator's `ceil_set` forwarded (`fwd = true`) or left out
+    (`crossval(..., ceil_set=None)`, the default of the public routine; round 5) -/
+def crossvalOnCeil (m : List α → List α → α) (fit : Nat → Piece α → Θ) (predict : Nat → Θ → List α)
+    (ncf : NcReq α → α × α) (d : Data α) (nModels : Nat) (req : SetsReq) (fwd calcNc : Bool) :
+    Except Rsa.Folds.Err (CvResult α) :=
+  (req.run (objOf d (fullView d)) (groupsP d).length).map (fun fc =>
+    crossval m fit predict ncf d nModels fc.1 (fc.2 && fwd) calcNc)
+
 /-- what a covariance over `n` usable resamples is -/
 inductive CovOutcome (α : Type) where
   /-- at least two usable resamples: the sample covariance -/
